@@ -12,6 +12,14 @@ TRUST = ('Trusted base: rustc nightly THIR/MIR for this source (same cfgs as the
          'the evidence file.')
 
 CHECKS = {
+    'C06': {
+        'technique': 'must-pass-through over the connection task (event order + exits census), must-exist checks for quit.store per termination cause, typed container census with frozen classification, removal-site census over the inlined teardown, condition equivalence for channel deletion',
+        'level': ('Decides that every path of the connection task reaches teardown, that each termination cause sets the quit flag, '
+                  'that every nick-keyed live container (from the struct definitions; new ones must be classified) is cleaned with '
+                  'the departing nick, that exactly one WHOWAS record is kept, that channels vanish iff empty and not preconfigured, '
+                  'and that teardown touches nothing keyed by another nick or a channel the user was not on.'),
+        'note': TRUST + ' Depends on C02 R2.6 (the nick must be the connection\'s own): violated on the pinned tree and reported there. Counters: C19.',
+    },
     'C02': {
         'technique': 'who-may-write census on the user registry (typed receiver), check-and-insert under one write-guard region (lexical guard regions + query events), typestate entailment authenticated => registered, key-provenance of every User mutation',
         'level': ('Decides that the registry is written only by add_user/remove_user/process_nick, that each insert is dominated by '
